@@ -20,7 +20,7 @@ Mutation kinds (``KINDS``):
   names       dangling_input dangling_output dup_name empty_name io_alias init_like shadow_outer
               redeclare_output
   structure   shuffle_nodes cyclic_nodes self_loop deep_nesting recursive_function dup_function
-              dup_attr dup_keyed copy_across
+              dup_attr dup_keyed copy_across outer_output drop_producer late_reject
   types/enums missing_type unknown_enum attr_type_mismatch unsupported
   payload     invalid_utf8 dims_mismatch multi_storage external_absurd
   references  ref_attr_outside device_unknown exp_value_info ir_version
@@ -572,6 +572,143 @@ def m_copy_across(root, rng):
     tmp.CopyFrom(src)
     dst.CopyFrom(tmp)
     return f"a {t} overwritten with a copy of another one"
+
+
+def _outer_node_outputs(chain) -> list[str]:
+    """Node-output names of the enclosing containers, those that are not graph outputs there first."""
+    plain, listed = [], []
+    for c in chain:
+        outs = {(v.name if _is_graph(c) else v) for v in c.output}
+        for n in c.node:
+            for o in n.output:
+                if isinstance(o, str) and o:
+                    (listed if o in outs else plain).append(o)
+    return plain or listed
+
+
+def m_outer_output(root, rng):
+    """A subgraph lists as its output a name it does not define but an enclosing graph's node produces."""
+    sg = [(g, chain) for g, chain in scoped_graphs(root) if chain]
+    rng.shuffle(sg)
+    if sg and rng.random() < 0.7:
+        for g, chain in sg:
+            own = set(_names_defined(g))
+            pool = [x for x in _outer_node_outputs(chain) if x not in own]
+            if not pool:
+                continue
+            name = rng.choice(pool)
+            if g.output and rng.random() < 0.6:
+                rng.choice(list(g.output)).name = name
+            else:
+                vi = g.output.add()
+                vi.name = name
+                if rng.random() < 0.6:
+                    vi.type.tensor_type.elem_type = rng.choice((1, 7, 10))
+                    vi.type.tensor_type.shape.dim.add().dim_value = 5
+            return f"subgraph (depth {len(chain)}) output names outer node output {name!r}"
+    # no suitable subgraph: build one (depth 1 or 2, GRAPH or GRAPHS) under a node of a container that has node outputs
+    cs = [c for c in containers(root) if _nodes_with_output(c)]
+    if not cs:
+        return None
+    c = rng.choice(cs)
+    idx = _nodes_with_output(c)
+    src = rng.choice(idx)
+    name = _an_output(c.node[src], rng)
+    later = [i for i in range(len(c.node)) if i > src]
+    host = c.node[rng.choice(later)] if later and rng.random() < 0.8 else c.node.add()
+    if not host.op_type:
+        host.op_type = "If"
+        host.output.append(_fresh(rng, "cond"))
+    depth = rng.choice((1, 1, 2))
+    a = host.attribute.add()
+    a.name = _fresh(rng, "branch")
+    for level in range(depth):
+        if rng.random() < 0.5:
+            a.type = AP.GRAPH
+            g = a.g
+        else:
+            a.type = AP.GRAPHS
+            g = a.graphs.add()
+        g.name = _fresh(rng, "sub")
+        n = g.node.add()
+        n.op_type = "Identity"
+        n.input.append(name)
+        local = _fresh(rng, "loc")
+        n.output.append(local)
+        if level == depth - 1:
+            if rng.random() < 0.5:
+                g.output.add().name = local
+            vi = g.output.add()
+            vi.name = name
+            if rng.random() < 0.6:
+                vi.type.tensor_type.elem_type = rng.choice((1, 7, 10))
+        else:
+            g.output.add().name = local
+            a = n.attribute.add()
+            a.name = _fresh(rng, "branch")
+    return f"new subgraph (depth {depth}) returns outer node output {name!r}"
+
+
+def m_drop_producer(root, rng):
+    """Remove a node whose outputs are still consumed / returned: their names dangle."""
+    cands = []
+    for c in containers(root):
+        used = {i for n in c.node for i in n.input if i}
+        used |= {(v.name if _is_graph(c) else v) for v in c.output}
+        for k, n in enumerate(c.node):
+            if any(o and o in used for o in n.output):
+                cands.append((c, k))
+    if not cands:
+        return None
+    c, k = rng.choice(cands)
+    outs = [o for o in c.node[k].output if o]
+    del c.node[k]
+    return f"producer of {outs[:3]} removed from a {c.DESCRIPTOR.name}"
+
+
+def m_late_reject(root, rng):
+    """Something the deserializer refuses, placed where it is reached only after the scope has been
+    filled and the earlier nodes have been built: last node / last output of a top-level container."""
+    name = root.DESCRIPTOR.name
+    if name == "ModelProto":
+        tops = [root.graph] + (list(root.functions) if rng.random() < 0.3 else [])
+    elif name in ("GraphProto", "FunctionProto"):
+        tops = [root]
+    else:
+        return None
+    c = rng.choice(tops)
+    r = rng.randrange(4)
+    if r == 0 and _is_graph(c):
+        vi = c.output.add()
+        vi.name = c.node[-1].output[0] if len(c.node) and len(c.node[-1].output) else _fresh(rng)
+        vi.type.map_type.key_type = 7
+        vi.type.map_type.value_type.tensor_type.elem_type = 1
+        return "map-typed graph output appended"
+    if not len(c.node):
+        return None
+    n = c.node[-1]
+    a = n.attribute.add()
+    a.name = _fresh(rng, "late")
+    if r == 1:
+        a.type = AP.STRINGS
+        a.strings.extend([b"ok", b"\xff\xfe"])
+        return "last node gets a non-UTF-8 strings attribute"
+    if r == 2:
+        a.type = AP.TENSOR
+        a.t.data_type = 1
+        a.t.data_location = TP.EXTERNAL
+        e = a.t.external_data.add()
+        e.key = "location"
+        e.value = f"{_canary(rng)}.bin"
+        e = a.t.external_data.add()
+        e.key = "offset"
+        e.value = "not-a-number"
+        return "last node gets an external tensor with a non-numeric offset"
+    a.type = AP.SPARSE_TENSOR
+    a.sparse_tensor.values.data_type = 1
+    a.sparse_tensor.dims.append(2)
+    return "last node gets a sparse tensor attribute"
+
 
 
 # ---- types / enums -----------------------------------------------------------------------------------
@@ -1156,6 +1293,7 @@ MUTATIONS: dict[str, Callable] = {
     "shuffle_nodes": m_shuffle_nodes, "cyclic_nodes": m_cyclic_nodes, "self_loop": m_self_loop,
     "deep_nesting": m_deep_nesting, "recursive_function": m_recursive_function, "dup_function": m_dup_function,
     "dup_attr": m_dup_attr, "dup_keyed": m_dup_keyed, "copy_across": m_copy_across,
+    "outer_output": m_outer_output, "drop_producer": m_drop_producer, "late_reject": m_late_reject,
     "missing_type": m_missing_type, "unknown_enum": m_unknown_enum, "attr_type_mismatch": m_attr_type_mismatch,
     "unsupported": m_unsupported,
     "invalid_utf8": m_invalid_utf8, "dims_mismatch": m_dims_mismatch, "multi_storage": m_multi_storage,
@@ -1189,8 +1327,10 @@ def default_weights(root: Message) -> dict[str, float]:
     """Relative weights of the mutation kinds for a message of this type."""
     w = {k: 1.0 for k in KINDS}
     for k in ("dangling_input", "dup_name", "empty_name", "redeclare_output", "init_like", "shadow_outer",
-              "external_absurd", "cyclic_nodes", "self_loop", "io_alias"):
+              "external_absurd", "cyclic_nodes", "self_loop", "io_alias", "drop_producer"):
         w[k] = 2.0
+    w["outer_output"] = 2.5
+    w["late_reject"] = 0.7
     for k in ("drop_field", "dup_element", "swap_elements", "scalar_extreme"):
         w[k] = 1.5
     for k in BYTE_KINDS:
